@@ -21,7 +21,12 @@ use serde::de::{DeserializeSeed, MapAccess, SeqAccess};
 
 use super::{Config, SchemaAwareDeserializer};
 use crate::schema::MapSchema;
-use crate::{Error, Schema, schema::ArraySchema, util::zag_i64};
+use crate::{
+    Error, Schema,
+    error::Details,
+    schema::ArraySchema,
+    util::{safe_len, zag_i64},
+};
 
 /// Deserialize sequences from an Avro array.
 pub struct BlockDeserializer<'s, 'r, R: Read, S: Borrow<Schema>> {
@@ -81,7 +86,11 @@ impl<'s, 'r, R: Read, S: Borrow<Schema>> BlockDeserializer<'s, 'r, R, S> {
             // If the block size is zero the array/map is finished
             Ok(None)
         } else {
-            Ok(Some(remaining.unsigned_abs()))
+            // Apply the same bound to a declared item count as the `Value` decoder does, otherwise
+            // a few bytes can announce 2^62 zero-width items and keep the iterator busy forever.
+            let count = remaining.unsigned_abs();
+            safe_len(usize::try_from(count).map_err(|_| Details::IntegerOverflow)?)?;
+            Ok(Some(count))
         }
     }
 }
